@@ -465,7 +465,7 @@ def _rand_par(rng, comp):
     par = {"dseed": rng.randint(1, 50)}
     if comp.endswith("Cross"):
         par.update({"ncross": rng.choice([1, 2, 3]), "nprogeny": rng.choice([1, 2, 3]), "nmating": rng.choice([1, 2]),
-                    "nself": rng.choice([0, 0, 1, 2]), "ntaxa": rng.choice([1, 4, 6]), "nvrnt": rng.choice([1, 5, 8]), "pc": rng.choice([0, 7])})
+                    "nself": rng.choice([0, 1, 1, 2]), "ntaxa": rng.choice([1, 4, 6]), "nvrnt": rng.choice([1, 5, 8]), "pc": rng.choice([0, 7])})
     elif comp == "G_E_Phenotyping":
         par.update({"nenv": rng.choice([1, 2, 3]), "nrep": rng.choice([1, 2])})
     elif comp in ("sus", "sus2d"): par.update({"n": rng.choice([1, 3, 6]), "size": rng.choice([1, 4, 7])})
@@ -666,6 +666,10 @@ def shrink(case, fails):
     return cur
 
 def translate(repo, gen_dir):
+    import os
     import translate.c08_entropy as T
+    scratch = os.path.join(os.path.dirname(os.path.dirname(gen_dir)), "build", "C08", "selftest")
+    n = T.selftest(scratch)                      # the translator must flag every hidden-source idiom of a synthetic module
     tab, info = T.translate(repo, gen_dir, all_static_names())
+    info["translator_selftest_assertions"] = n
     return [info]
